@@ -208,3 +208,41 @@ func VxH_C03_sheets() {
 	vx.Reach("computed")
 	vx.Assert("author-rule-wins", got == 5)
 }
+
+// media types (print rendering): a style sheet applies when its media list names print or all,
+// ASCII case-insensitively, whether the list stands in the media attribute of <style> or in an
+// @media rule.
+func VxH_C03_media() {
+	lists := []string{"print", "PRINT", "Print", "screen", "all", "ALL", " print , screen", "screen, PRINT", "", "SCREEN", "tv,handheld"}
+	applies := []bool{true, true, true, false, true, true, true, true, true, false, false}
+	k := vx.Choose("media", len(lists))
+	inAttr := vx.Choose("where", 2) == 0
+	var src string
+	if inAttr {
+		src = "<html><head><style media=\"" + lists[k] + "\">p{orphans:7}</style></head><body><p></p></body></html>"
+	} else {
+		if lists[k] == "" {
+			return // "@media {" without a list is covered by the attribute form
+		}
+		src = "<html><head><style>@media " + lists[k] + " {p{orphans:7}}</style></head><body><p></p></body></html>"
+	}
+	doc, err := NewHTML(utils.InputString(src), "", nil, "")
+	if err != nil {
+		panic(err)
+	}
+	sf := GetAllComputedStyles(doc, nil, false, nil, nil, nil, nil, false, nil)
+	var p *utils.HTMLNode
+	it := utils.NewHtmlIterator(doc.Root.AsHtmlNode())
+	for it.HasNext() {
+		if n := it.Next(); n.Data == "p" {
+			p = n
+		}
+	}
+	vx.Reach("computed")
+	got := int(sf.Get(p, "").GetOrphans())
+	want := 2
+	if applies[k] {
+		want = 7
+	}
+	vx.Assert("media-list-decides", got == want)
+}
